@@ -237,12 +237,32 @@ func (tr *FnTr) contractCallInfo(x ssa.Value, f *calleeInfo, ct *FuncContract, a
 			break
 		}
 		g := ctx.goal(c.E)
+		if isNilTest(c.E) && tr.top.ct != nil && tr.top.ct.NoNilCheck && !tr.excMode {
+			// `x != nil` preconditions are nil checks: not claimed under nonilcheck
+			tr.st.Reach = tr.vc.Def("reach", And(tr.st.Reach, g))
+			continue
+		}
 		tr.vc.Oblige(tr.prefix+"pre."+name, labelOr(c.Label, i+1), Implies(tr.st.Reach, g), tr.pos(tr.curInstr.Pos()))
 		tr.st.Reach = tr.vc.Def("reach", And(tr.st.Reach, g))
 	}
-	if (ct.NoPanicCheck || ct.MayPanic) && !tr.top.recovering && !tr.excMode && !(tr.top.ct != nil && tr.top.ct.NoPanicCheck) {
-		// the callee's contract does not promise absence of panics
-		tr.vc.Oblige(tr.prefix+"nopanic.callee."+name, "", Implies(tr.st.Reach, tFalse), tr.pos(tr.curInstr.Pos()))
+	// the callee's representation invariant is assumed at its entry: the caller establishes it
+	for i, c := range ct.DataInv {
+		if tr.top.refute {
+			break
+		}
+		g := ctx.goal(c.E)
+		tr.vc.Oblige(tr.prefix+"pre."+name, fmt.Sprintf("datainv%d", i+1), Implies(tr.st.Reach, g), tr.pos(tr.curInstr.Pos()))
+		tr.st.Reach = tr.vc.Def("reach", And(tr.st.Reach, g))
+	}
+	if ct.NoPanicCheck || ct.MayPanic {
+		covered := tr.recoverCovers()
+		if !covered && !tr.excMode && !(tr.top.ct != nil && tr.top.ct.NoPanicCheck) {
+			// the callee's contract does not promise absence of panics
+			tr.vc.Oblige(tr.prefix+"nopanic.callee."+name, "", Implies(tr.st.Reach, tFalse), tr.pos(tr.curInstr.Pos()))
+		}
+		if covered && !tr.excMode && !tr.top.refute {
+			tr.top.excLocks = append(tr.top.excLocks, excLock{Reach: tr.st.Reach, Locks: tr.st.Locks})
+		}
 	}
 	if ct.Assumed {
 		tr.vc.Assumed = appendUniq(tr.vc.Assumed, "assumed contract: "+ct.Pkg+"."+name)
@@ -289,12 +309,7 @@ func (tr *FnTr) contractCallInfo(x ssa.Value, f *calleeInfo, ct *FuncContract, a
 			if a.T == nil || len(a.L) == 0 {
 				continue
 			}
-			isRef := false
-			switch a.T.Underlying().(type) {
-			case *types.Interface, *types.Pointer:
-				isRef = true
-			}
-			if !isRef {
+			if !mayHoldGhost(a.T, 0) {
 				continue
 			}
 			id := a.L[0]
@@ -317,6 +332,14 @@ func (tr *FnTr) contractCallInfo(x ssa.Value, f *calleeInfo, ct *FuncContract, a
 	pctx.guard = post.Reach
 	for _, c := range ct.Ensures {
 		tr.vc.Assume(Implies(post.Reach, pctx.fact(c.E)))
+	}
+	// ...and the callee re-establishes it at every exit (obligation datainv.N of the callee)
+	for _, c := range ct.DataInv {
+		tr.vc.Assume(Implies(post.Reach, pctx.fact(c.E)))
+	}
+	if !ct.Pure && !ct.HasModifies {
+		// memory was havocked: the caller's own representation invariant is assumed to survive
+		tr.assumeDataInv()
 	}
 	return res
 }
@@ -677,6 +700,55 @@ func (tr *FnTr) builtinAppend(x *ssa.Call, args []Val) Val {
 func (tr *FnTr) runDefers(exc bool) {
 	for i := len(tr.defers) - 1; i >= 0; i-- {
 		d := tr.defers[i]
+		// A deferred call runs only if its defer statement was executed. That is certain when
+		// the statement dominates this exit (or, at the exceptional exit, when it is one of
+		// the recovering defers that cover the panic); otherwise the call runs under the
+		// reachability predicate of the defer statement (unknown at the exceptional exit).
+		uncond := false
+		if exc {
+			for _, rd := range tr.top.recDefers {
+				if rd == d.call {
+					uncond = true
+				}
+			}
+		} else if tr.curInstr != nil && tr.curInstr.Block() != nil && d.call.Block() != nil {
+			cb := tr.curInstr.Block()
+			uncond = d.call.Block() == cb || d.call.Block().Dominates(cb)
+		} else {
+			uncond = true
+		}
+		if uncond {
+			tr.runDefer(d, exc)
+			continue
+		}
+		cond := d.reach
+		if exc {
+			cond = tr.vc.Fresh("defer_registered", SBool)
+		}
+		st0 := tr.st
+		tr.st.Reach = tr.vc.Def("reach", And(st0.Reach, cond))
+		tr.runDefer(d, exc)
+		st1 := tr.st
+		tr.st = State{
+			Reach: tr.vc.Def("reach", Or(And(st0.Reach, Not(cond)), st1.Reach)),
+			Mem:   tr.vc.Def("mem", Ite(cond, st1.Mem, st0.Mem)),
+			Alloc: tr.vc.Def("alloc", Ite(cond, st1.Alloc, st0.Alloc)),
+		}
+		if st0.Locks != nil && st1.Locks != nil {
+			tr.st.Locks = Ite(cond, st1.Locks, st0.Locks)
+		} else {
+			tr.st.Locks = st0.Locks
+		}
+		if st0.Ghost != nil && st1.Ghost != nil {
+			tr.st.Ghost = Ite(cond, st1.Ghost, st0.Ghost)
+		} else {
+			tr.st.Ghost = st0.Ghost
+		}
+	}
+}
+
+func (tr *FnTr) runDefer(d deferred, exc bool) {
+	{
 		cc := &d.call.Call
 		switch f := cc.Value.(type) {
 		case *ssa.MakeClosure:
@@ -695,7 +767,7 @@ func (tr *FnTr) runDefers(exc bool) {
 		case *ssa.Function:
 			if cc.IsInvoke() {
 				tr.abstractCallVals(nil, "deferred invoke")
-				continue
+				return
 			}
 			name := calleeName(f)
 			var args []Val
@@ -704,15 +776,15 @@ func (tr *FnTr) runDefers(exc bool) {
 			}
 			if m := libModels[name]; m != nil {
 				m(tr, nil, args, cc)
-				continue
+				return
 			}
 			if ct := tr.eng.contractFor(name); ct != nil && !ct.Inline {
 				tr.contractCall(nil, f, ct, args)
-				continue
+				return
 			}
 			if tr.eng.autoInline(f) || tr.eng.contractFor(name) != nil {
 				tr.inline(nil, f, args, nil, name)
-				continue
+				return
 			}
 			tr.abstractCallVals(nil, "deferred call to "+name)
 		default:
@@ -722,30 +794,43 @@ func (tr *FnTr) runDefers(exc bool) {
 }
 
 // hasRecover reports whether fn defers a closure that calls recover().
-func hasRecover(fn *ssa.Function) bool {
+func hasRecover(fn *ssa.Function) bool { return len(recoverDefers(fn)) > 0 }
+
+// recoverDefers lists the defer statements of fn whose closure calls recover().
+func recoverDefers(fn *ssa.Function) []*ssa.Defer {
+	var out []*ssa.Defer
 	for _, b := range fn.Blocks {
 		for _, in := range b.Instrs {
 			d, ok := in.(*ssa.Defer)
 			if !ok {
 				continue
 			}
-			mc, ok := d.Call.Value.(*ssa.MakeClosure)
-			if !ok {
+			var cf *ssa.Function
+			switch v := d.Call.Value.(type) {
+			case *ssa.MakeClosure:
+				cf = v.Fn.(*ssa.Function)
+			case *ssa.Function:
+				cf = v
+			}
+			if cf == nil {
 				continue
 			}
-			cf := mc.Fn.(*ssa.Function)
+			found := false
 			for _, cb := range cf.Blocks {
 				for _, ci := range cb.Instrs {
 					if c, ok := ci.(*ssa.Call); ok {
 						if bi, ok := c.Call.Value.(*ssa.Builtin); ok && bi.Name() == "recover" {
-							return true
+							found = true
 						}
 					}
 				}
 			}
+			if found {
+				out = append(out, d)
+			}
 		}
 	}
-	return false
+	return out
 }
 
 // ---------- interface method calls ----------
@@ -792,4 +877,56 @@ func (tr *FnTr) assumeGlobals() {
 		tr.vc.Assume(Implies(tr.st.Reach, ctx.fact(g.C.E)))
 		tr.vc.Assumed = appendUniq(tr.vc.Assumed, "global invariant assumed ("+shortPkg(g.Pkg)+"): "+g.C.Src)
 	}
+}
+
+// isNilTest recognises the precondition shape `name != nil`.
+func isNilTest(e *Expr) bool {
+	if e == nil || e.Op != "bin" || e.Name != "!=" || len(e.Args) != 2 {
+		return false
+	}
+	a, b := e.Args[0], e.Args[1]
+	return (a.Op == "id" && b.Op == "id" && b.Name == "nil") || (b.Op == "id" && a.Op == "id" && a.Name == "nil")
+}
+
+// mayHoldGhost: does a value of this type name a ghost byte buffer (writer, hasher, buffer,
+// reader) by its own object id? Interfaces (io.Writer, hash.Hash, ...), pointers to the
+// library types themselves, and pointers to structs that embed such a type by value. Buffers
+// reachable only through pointer fields of an argument are not tracked (stated assumption:
+// callees under contract do not write to them behind the caller's back).
+func mayHoldGhost(T types.Type, depth int) bool {
+	if depth > 4 {
+		return true
+	}
+	if isGhostLibType(T) {
+		return true
+	}
+	switch t := T.Underlying().(type) {
+	case *types.Interface:
+		return true
+	case *types.Pointer:
+		if depth == 0 {
+			return mayHoldGhost(t.Elem(), depth+1)
+		}
+		return false
+	case *types.Struct:
+		for i := 0; i < t.NumFields(); i++ {
+			ft := t.Field(i).Type()
+			if isGhostLibType(ft) {
+				return true
+			}
+			if _, ok := ft.Underlying().(*types.Struct); ok && mayHoldGhost(ft, depth+1) {
+				return true
+			}
+		}
+	}
+	return false
+}
+
+func isGhostLibType(T types.Type) bool {
+	nt, ok := T.(*types.Named)
+	if !ok || nt.Obj().Pkg() == nil {
+		return false
+	}
+	p := nt.Obj().Pkg().Path()
+	return p == "bytes" || p == "bufio" || p == "hash" || strings.HasPrefix(p, "crypto/") || strings.HasSuffix(p, "/ripemd160")
 }
